@@ -144,24 +144,37 @@ example : Impl.recheckMeta RF.Ex.h1 toyH 2 2 RF.Ex.emptySingleMeta [110] (some (
     = .error .keyError := by decide
 
 open RF in
-/-- Root or parent.  Let the payload be stored under the torrent's name in a directory
-    (`child (.dir parent) name = some payload`; other entries may be there too).  If that
-    directory is NOT itself named like the torrent (`pname ≠ name` — the precise side
-    condition), `find_root` resolves "the parent directory" and "the payload root" (passed
-    under its own name) to the same node, so the file map and the whole result — verdict
-    stream, matched, consumed, or the error — are the same for both content arguments. -/
+/-- Root or parent (after the repair of `find_root`, which tells the content from its parent
+    when both carry the torrent's name).  Let the payload be stored under the torrent's name
+    in a directory (`child (.dir parent) name = some payload`; other entries may be there
+    too).  The two content arguments "parent directory" (named `pname`) and "payload root"
+    (passed under its own name) both resolve to the payload, and therefore give the same
+    file map and the same whole result, under exactly these two side conditions, both
+    decidable on the metafile and the disk:
+
+    `hparent`: the parent is not named like the torrent, OR `_is_parent` tells the payload
+    from it — for a single-file torrent the payload is a regular file; otherwise strictly
+    more of the described top-level entries (`Impl.topsOf`) exist below the payload than
+    directly in the parent: `countTops parent tops < countTops payload tops`.
+
+    `hroot` (`Impl.descends … payload = .ok false`): the payload is a file, or has no entry
+    named like the torrent, or that entry does not hold more of the described top-level
+    entries than the payload itself.
+
+    Both are needed: `root_or_parent_needs_side_condition`, `root_side_condition_needed`. -/
 theorem root_or_parent (H1 H : Bytes → Bytes) (B hs : Nat) (mf : BVal) (payload : Disk)
     (parent : List (Bytes × Node)) (pname : Bytes)
     (hstored : child (.dir parent) (Impl.nameOf mf) = some payload)
-    (hside : pname ≠ Impl.nameOf mf) :
-    Impl.findRoot (Impl.nameOf mf) pname (some (.dir parent))
-      = Impl.findRoot (Impl.nameOf mf) (Impl.nameOf mf) (some payload) ∧
+    (hparent : pname ≠ Impl.nameOf mf ∨
+      Impl.isParent (Impl.infoOf mf) (Impl.nameOf mf) (.dir parent) payload = .ok true)
+    (hroot : Impl.descends (Impl.infoOf mf) (Impl.nameOf mf) payload = .ok false) :
+    Impl.findRoot (Impl.infoOf mf) (Impl.nameOf mf) pname (some (.dir parent)) = .ok payload ∧
+    Impl.findRoot (Impl.infoOf mf) (Impl.nameOf mf) (Impl.nameOf mf) (some payload) = .ok payload ∧
     Impl.recheckMeta H1 H B hs mf pname (some (.dir parent))
       = Impl.recheckMeta H1 H B hs mf (Impl.nameOf mf) (some payload) := by
-  have h : Impl.findRoot (Impl.nameOf mf) pname (some (.dir parent))
-      = Impl.findRoot (Impl.nameOf mf) (Impl.nameOf mf) (some payload) := by
-    rw [Spec.findRoot_parent _ pname parent payload hside hstored, Spec.findRoot_root]
-  exact ⟨h, Spec.recheckMeta_congr H1 H B hs mf _ _ _ _ h⟩
+  have h1 := Spec.findRoot_parent_any _ _ pname parent payload hstored hparent
+  have h2 := Spec.findRoot_root (Impl.infoOf mf) (Impl.nameOf mf) payload hroot
+  exact ⟨h1, h2, Spec.recheckMeta_congr H1 H B hs mf _ _ _ _ (h1.trans h2.symm)⟩
 
 /-- the hybrid payload `n` next to another entry inside a directory `h` -/
 example :
@@ -169,43 +182,116 @@ example :
         (some (.dir [([120], .file [9]), ([110], RF.Ex.v2Disk)]))
       = Impl.recheckMeta RF.Ex.h1 toyH 2 2 RF.Ex.hybridMeta [110] (some RF.Ex.v2Disk) :=
   (root_or_parent RF.Ex.h1 toyH 2 2 RF.Ex.hybridMeta RF.Ex.v2Disk
-    [([120], .file [9]), ([110], RF.Ex.v2Disk)] [104] rfl (by decide)).2
+    [([120], .file [9]), ([110], RF.Ex.v2Disk)] [104] rfl (Or.inl (by decide)) (by decide)).2.2
 
 open RF in
-/-- The same at the level of the whole `Checker` on the metafile bytes: content argument =
-    payload root (named like the torrent) and content argument = parent directory (any other
-    name) give the same result. -/
-theorem root_or_parent_arg (H1 H : Bytes → Bytes) (B hs : Nat) (metafile : Bytes) (mf : BVal)
-    (disk : Disk) (pname : Bytes) (hmf : Impl.loads metafile = some mf)
-    (hside : pname ≠ Impl.nameOf mf) :
-    Impl.recheck H1 H B hs metafile ⟨.parent, pname⟩ disk
-      = Impl.recheck H1 H B hs metafile ⟨.root, Impl.nameOf mf⟩ disk := by
-  simp only [Impl.recheck, hmf, ContentArg.place]
-  exact (root_or_parent H1 H B hs mf disk [(Impl.nameOf mf, disk)] pname
-    (by simp [child]) hside).2
+/-- The side condition `hparent` in terms of the disk, for a torrent that is not a single
+    file: with `tops` the described top-level entries, `_is_parent` says "parent" exactly
+    when fewer of them are found directly in the outer directory than below the inner one.
+    In particular, for an intact payload, it is enough that one described top-level entry
+    is NOT also found directly in the parent.  For a single-file torrent (`topsOf = none`)
+    it says "parent" exactly when the inner entry is a regular file. -/
+theorem isParent_by_tops (info : Dict) (name : Bytes) (outer inner : Node) :
+    (∀ tops, Impl.topsOf info name = .ok (some tops) →
+      Impl.isParent info name outer inner
+        = .ok (decide (Impl.countTops outer tops < Impl.countTops inner tops))) ∧
+    (Impl.topsOf info name = .ok none →
+      Impl.isParent info name outer inner = .ok (isFile inner)) :=
+  ⟨fun tops h => Spec.isParent_tops info name tops outer inner h,
+    Spec.isParent_single info name outer inner⟩
 
-example : Impl.recheck RF.Ex.h1 toyH 2 2 (Impl.encode RF.Ex.v1Meta) ⟨.parent, [104]⟩ RF.Ex.v1Disk
-    = .ok ([(true, 4), (true, 3)], 7, 7) := by decide +kernel
+/-- `a`, `b`, `d` are described; all three are below the payload, none directly in a parent
+    that holds just the payload -/
+example : Impl.topsOf (Impl.infoOf RF.Ex.v2Meta) [110] = .ok (some [[97], [98], [100]]) ∧
+    Impl.countTops (.dir [([110], RF.Ex.v2Disk)]) [[97], [98], [100]] = 0 ∧
+    Impl.countTops RF.Ex.v2Disk [[97], [98], [100]] = 3 ∧
+    Impl.topsOf (Impl.infoOf RF.Ex.singleMeta) [110] = .ok none := by decide
 
-/-- WITNESS that the side condition is needed (the real `Checker` agrees): the v2 torrent `n`
-    (a directory), intact, stored as `n/n`.  The parent directory is named like the torrent,
-    so `find_root` takes the parent itself for the payload; every file is looked up one level
-    too high, is absent, and is read as zeros: nothing verifies (0 of 10 bytes), whereas the
-    payload root gives 10 of 10. -/
+/-- The old ambiguity is resolved (the real `Checker` agrees): the v2 torrent `n` (a
+    directory), intact, stored as `n/n`, and the content argument is the outer `n`, named like
+    the torrent.  Before the repair `find_root` took the outer directory for the payload and
+    nothing verified (0 of 10); now `_is_parent` finds `a`, `b`, `d` below the inner `n` and
+    not in the outer one, goes on to the inner one, and all 10 bytes verify — the same as for
+    the payload root.  Likewise for the single-file torrent `n` stored as `n/n`. -/
+theorem parent_named_like_torrent_resolves :
+    Impl.recheckMeta RF.Ex.h1 toyH 2 2 RF.Ex.v2Meta [110] (some (.dir [([110], RF.Ex.v2Disk)]))
+      = .ok ([(true, 4), (true, 3), (true, 3)], 10, 10) ∧
+    Impl.recheckMeta RF.Ex.h1 toyH 2 2 RF.Ex.v2Meta [110] (some RF.Ex.v2Disk)
+      = .ok ([(true, 4), (true, 3), (true, 3)], 10, 10) ∧
+    Impl.recheckMeta RF.Ex.h1 toyH 2 2 RF.Ex.singleMeta [110]
+        (some (.dir [([110], RF.Ex.singleDisk)]))
+      = .ok ([(true, 4), (true, 3)], 7, 7) := by
+  decide +kernel
+
+/-- the same for the v1 and the hybrid example -/
+example :
+    Impl.recheckMeta RF.Ex.h1 toyH 2 2 RF.Ex.v1Meta [110] (some (.dir [([110], RF.Ex.v1Disk)]))
+      = .ok ([(true, 4), (true, 3)], 7, 7) ∧
+    Impl.recheckMeta RF.Ex.h1 toyH 2 2 RF.Ex.hybridMeta [110] (some (.dir [([110], RF.Ex.v2Disk)]))
+      = .ok ([(true, 4), (true, 3), (true, 3)], 10, 10) := by
+  decide +kernel
+
+/-- WITNESS that `hparent` is still needed (the real `Checker` agrees): the v2 torrent `n`,
+    intact, stored in a directory that is also named `n` and that holds, next to the payload,
+    entries named like all three described top-level entries (`a` with other content).  As
+    many of them are found directly in the parent as below the payload, `_is_parent` says
+    "not the parent", the outer directory is checked and nothing verifies (0 of 10), whereas
+    the payload root — and the same directory under any other name — gives 10 of 10. -/
 theorem root_or_parent_needs_side_condition :
     ∃ (mf : BVal) (payload : RF.Disk) (parent : List (Bytes × Node)),
       RF.child (.dir parent) (Impl.nameOf mf) = some payload ∧
+      Impl.descends (Impl.infoOf mf) (Impl.nameOf mf) payload = .ok false ∧
+      Impl.isParent (Impl.infoOf mf) (Impl.nameOf mf) (.dir parent) payload = .ok false ∧
       Impl.recheckMeta RF.Ex.h1 toyH 2 2 mf (Impl.nameOf mf) (some (.dir parent))
         = .ok ([(false, 4), (false, 3), (false, 3)], 0, 10) ∧
       Impl.recheckMeta RF.Ex.h1 toyH 2 2 mf (Impl.nameOf mf) (some payload)
         = .ok ([(true, 4), (true, 3), (true, 3)], 10, 10) :=
-  ⟨RF.Ex.v2Meta, RF.Ex.v2Disk, [([110], RF.Ex.v2Disk)], rfl, by decide +kernel,
+  ⟨RF.Ex.v2Meta, RF.Ex.v2Disk, RF.Ex.v2Crowded, rfl, by decide, by decide, by decide +kernel,
     by decide +kernel⟩
 
-/-- the same witness for the hybrid metafile -/
+/-- the same directory under another name (`h`) resolves to the payload -/
+example : Impl.recheckMeta RF.Ex.h1 toyH 2 2 RF.Ex.v2Meta [104] (some (.dir RF.Ex.v2Crowded))
+    = .ok ([(true, 4), (true, 3), (true, 3)], 10, 10) := by decide +kernel
+
+/-- WITNESS that `hroot` is needed (the real `Checker` behaves the same): a damaged payload
+    directory `n` that has none of the described entries but a stray directory `n` holding `a`
+    and `b`.  Passed as the payload root, `find_root` goes on into the stray directory (more
+    described entries there) and reports 7 of 10; passed through its parent `h` the payload
+    itself is checked: 0 of 10. -/
+theorem root_side_condition_needed :
+    ∃ (mf : BVal) (payload : RF.Disk),
+      Impl.descends (Impl.infoOf mf) (Impl.nameOf mf) payload = .ok true ∧
+      Impl.recheckMeta RF.Ex.h1 toyH 2 2 mf (Impl.nameOf mf) (some payload)
+        = .ok ([(true, 4), (true, 3), (false, 3)], 7, 10) ∧
+      Impl.recheckMeta RF.Ex.h1 toyH 2 2 mf [104] (some (.dir [(Impl.nameOf mf, payload)]))
+        = .ok ([(false, 4), (false, 3), (false, 3)], 0, 10) :=
+  ⟨RF.Ex.v2Meta, RF.Ex.v2Stray, by decide, by decide +kernel, by decide +kernel⟩
+
+example : RF.child RF.Ex.v2Stray [110]
+    = some (.dir [([97], .file [1, 2, 3, 4, 5, 6, 7]), ([98], .file [])]) := rfl
+
+open RF in
+/-- The same at the level of the whole `Checker` on the metafile bytes: content argument =
+    payload root and content argument = parent directory (holding just the payload) give the
+    same result when both resolve (`ContentArg.Resolves`). -/
+theorem root_or_parent_arg (H1 H : Bytes → Bytes) (B hs : Nat) (metafile : Bytes) (mf : BVal)
+    (disk : Disk) (pname : Bytes) (hmf : Impl.loads metafile = some mf)
+    (hparent : (⟨.parent, pname⟩ : ContentArg).Resolves (Impl.infoOf mf) (Impl.nameOf mf) disk)
+    (hroot : (⟨.root, Impl.nameOf mf⟩ : ContentArg).Resolves (Impl.infoOf mf) (Impl.nameOf mf) disk) :
+    Impl.recheck H1 H B hs metafile ⟨.parent, pname⟩ disk
+      = Impl.recheck H1 H B hs metafile ⟨.root, Impl.nameOf mf⟩ disk := by
+  simp only [Impl.recheck, hmf, ContentArg.place]
+  exact (root_or_parent H1 H B hs mf disk [(Impl.nameOf mf, disk)] pname
+    (by simp [child]) hparent hroot.2).2.2
+
+/-- parent `h`, and parent named like the torrent (`n`): both as the root -/
 example :
-    Impl.recheckMeta RF.Ex.h1 toyH 2 2 RF.Ex.hybridMeta [110] (some (.dir [([110], RF.Ex.v2Disk)]))
-      = .ok ([(false, 4), (false, 3), (false, 3)], 0, 10) := by decide +kernel
+    Impl.recheck RF.Ex.h1 toyH 2 2 (Impl.encode RF.Ex.v1Meta) ⟨.parent, [104]⟩ RF.Ex.v1Disk
+      = .ok ([(true, 4), (true, 3)], 7, 7) ∧
+    Impl.recheck RF.Ex.h1 toyH 2 2 (Impl.encode RF.Ex.v1Meta) ⟨.parent, [110]⟩ RF.Ex.v1Disk
+      = .ok ([(true, 4), (true, 3)], 7, 7) ∧
+    Impl.recheck RF.Ex.h1 toyH 2 2 (Impl.encode RF.Ex.v1Meta) ⟨.root, [110]⟩ RF.Ex.v1Disk
+      = .ok ([(true, 4), (true, 3)], 7, 7) := by decide +kernel
 
 open RF in
 /-- Intact content, whole `Checker`, all three versions.  Let the metafile be well-formed
@@ -222,7 +308,7 @@ theorem intact_full (H1 H : Bytes → Bytes) (B hs : Nat) (hhs : 0 < hs)
     (p : Spec.Plan) (argName : Bytes) (here : Option Node)
     (hplan : Spec.plan B mf disk = some p) (hintact : p.Intact H1 H B hs)
     (htotal : 0 < p.total)
-    (hroot : Impl.findRoot (Impl.nameOf mf) argName here = .ok disk) :
+    (hroot : Impl.findRoot (Impl.infoOf mf) (Impl.nameOf mf) argName here = .ok disk) :
     Impl.recheckMeta H1 H B hs mf argName here
       = .ok (p.verdicts H1 H B hs, p.total, p.total) ∧
     (∀ v ∈ p.verdicts H1 H B hs, v.1 = true) ∧ 0 < p.total :=
@@ -256,19 +342,20 @@ example : ∃ p, Spec.plan 2 RF.Ex.v2Meta RF.Ex.v2Disk = some p ∧ p.Intact RF.
 
 open RF in
 /-- The same for the whole `Impl.recheck` on the metafile BYTES: the bytes decode
-    (`pyben.load`) to `mf`, and the content argument is the payload root (named like the
-    torrent) or its parent directory (not named like the torrent) — `ContentArg.Resolves`.
+    (`pyben.load`) to `mf`, and the content argument is the payload root or its parent
+    directory and resolves to the payload (`ContentArg.Resolves`, see `root_or_parent`).
     Intact, non-empty content gives `(total, total)` either way. -/
 theorem intact_full_arg (H1 H : Bytes → Bytes) (B hs : Nat) (hhs : 0 < hs)
     (hH1 : ∀ b, (H1 b).length = 20) (hH : ∀ b, (H b).length = hs) (metafile : Bytes) (mf : BVal)
     (arg : ContentArg) (disk : Disk) (p : Spec.Plan) (hmf : Impl.loads metafile = some mf)
-    (harg : arg.Resolves (Impl.nameOf mf)) (hplan : Spec.plan B mf disk = some p)
+    (harg : arg.Resolves (Impl.infoOf mf) (Impl.nameOf mf) disk)
+    (hplan : Spec.plan B mf disk = some p)
     (hintact : p.Intact H1 H B hs) (htotal : 0 < p.total) :
     Impl.recheck H1 H B hs metafile arg disk = .ok (p.verdicts H1 H B hs, p.total, p.total) ∧
     0 < p.total := by
   simp only [Impl.recheck, hmf]
   exact ⟨(intact_full H1 H B hs hhs hH1 hH mf disk p arg.argName _ hplan hintact htotal
-    (Spec.findRoot_place arg _ disk harg)).1, htotal⟩
+    (Spec.findRoot_place arg _ _ disk harg)).1, htotal⟩
 
 /-- the bytes of the hybrid example metafile, root (named `n`) and parent (named `h`) -/
 example :
